@@ -114,10 +114,10 @@ class Check:
         with tempfile.NamedTemporaryFile('w', suffix='.smt2', delete=False, dir=self.native.dir) as f:
             f.write(text)
             path = f.name
-        for cmd in (['cvc5', '--lang', 'smt2', '--tlimit=20000', '--strings-exp', path], ['/usr/bin/z3', '-T:20', path]):
+        for cmd in (['cvc5', '--lang', 'smt2', '--tlimit=6000', '--strings-exp', path], ['/usr/bin/z3', '-T:6', path]):
             st['asked'] += 1
             try:
-                out = subprocess.run(cmd, stdout=subprocess.PIPE, stderr=subprocess.STDOUT, text=True, timeout=40).stdout
+                out = subprocess.run(cmd, stdout=subprocess.PIPE, stderr=subprocess.STDOUT, text=True, timeout=15).stdout
             except Exception:
                 st['inconclusive'] += 1
                 continue
